@@ -77,7 +77,7 @@ def P(tier):
             "box_list_times": [0, 0.125, 1, 2.5], "box_list_freqs": [0, 125, 1000], "box_maxlen": 3,
             "labels": ["a", "__empty__", "b"],
             "export_times": [0, 0.125, 0.1875, 1, 2.5], "export_freqs": [0, 125, 1000], "export_srs": [8, 8000, 44100],
-            "export_maxlen": 3, "indices": [None, -1, 0, 1, 2, 5],
+            "export_maxlen": 3, "indices": [None, -1, 0, 1, 2, 5, 4, -4],
         }
     return {
         "times": [0, 0.125, 0.5, 1, 2.5, 4], "freqs": [0, 125, 1000, 4000, 30000], "srs": [8, 8000, 44100, 96000],
@@ -86,7 +86,7 @@ def P(tier):
         "box_list_times": [0, 0.125, 1, 2.5], "box_list_freqs": [0, 125, 1000, 4000], "box_maxlen": 3,
         "labels": ["a", "__empty__", "b", "", "x", "other"],
         "export_times": [0, 0.125, 0.1875, 0.5, 1, 2.5, 4], "export_freqs": [0, 125, 1000, 5000], "export_srs": [8, 8000, 44100, 96000],
-        "export_maxlen": 4, "indices": [None, -1, 0, 1, 2, 5, -4, 3, 7],
+        "export_maxlen": 4, "indices": [None, -1, 0, 1, 2, 5, 4, -4, 3, 7, -7],
     }
 
 
@@ -436,7 +436,9 @@ def cascade_kwargs(label, o):
 
 
 def cascade_cell(label, mod, decisive):
-    """Name of the option cell of a judged cascade case (function of the inputs only)."""
+    """Name of the option cell of a judged cascade case (a function of the inputs only): the step of the documented
+    cascade that decides the result, plus the given-but-losing options that compete for the same slot (term slot:
+    term_mapping / explicit term; tags slot: tag_mapping; key slot: key_mapping / explicit key / fallback)."""
     hit = lambda name: mod.get(name) is not None and label in mod[name]  # noqa
     miss = lambda name: mod.get(name) is not None and label not in mod[name]  # noqa
     if decisive == "empty":
@@ -448,24 +450,22 @@ def cascade_cell(label, mod, decisive):
     if decisive == "tag_mapping" and mod.get("term") is not None:
         return "explicit_term_with_tag_mapping_hit"
     losers = []
-    if mod.get("tag_fn") is not None:
-        losers.append("tag_fn_raises")
-    if miss("term_mapping"):
-        losers.append("term_mapping_miss")
-    if miss("tag_mapping"):
-        losers.append("tag_mapping_miss")
-    if mod.get("term") is not None and decisive != "explicit_term":
-        losers.append("explicit_term")
-    if hit("key_mapping") and decisive != "key_mapping":
-        losers.append("key_mapping_hit")
-    if miss("key_mapping"):
-        losers.append("key_mapping_miss")
-    if mod.get("key") is not None and decisive != "explicit_key":
-        losers.append("explicit_key")
-    if mod.get("fallback") is not None and decisive != "fallback":
-        losers.append("custom_fallback")
-    if decisive == "fallback" and mod.get("fallback") is not None:
-        decisive = "custom_fallback"
+    if decisive in ("term_mapping", "explicit_term", "tag_mapping"):
+        if miss("term_mapping"):
+            losers.append("term_mapping_miss")
+        if mod.get("term") is not None and decisive != "explicit_term":
+            losers.append("explicit_term")
+    else:  # key slot
+        if miss("tag_mapping"):
+            losers.append("tag_mapping_miss")
+        if hit("key_mapping") and decisive != "key_mapping":
+            losers.append("key_mapping_hit")
+        if miss("key_mapping"):
+            losers.append("key_mapping_miss")
+        if mod.get("key") is not None and decisive != "explicit_key":
+            losers.append("explicit_key")
+        if decisive == "fallback" and mod.get("fallback") is not None:
+            decisive = "custom_fallback"
     return decisive + ("_with_" + "_and_".join(losers) if losers else "")
 
 
@@ -626,18 +626,20 @@ def export_call(kind, events, kw):
     return ("ok", list(getattr(r[1], "bboxes", []))) if r[0] == "ok" else r
 
 
-def label_cell(o, step, tags):
+def label_cell(o, step, tags, tmod):
+    """Option cell of a label_from_tags case: the deciding step of the sequence-level cascade plus the deciding
+    step(s) of the tag-level cascade for the tag(s) it converts."""
     if step == "select_by_key_hit" and o["value_only"] is not None:
         return "select_by_key_hit_with_explicit_value_only"
-    mods = []
-    if step in ("select_by_key_hit", "index", "join"):
-        if o["label_fn"]:
-            mods.append("label_fn")
-        elif o["label_mapping"]:
-            mods.append("label_mapping_" + o["label_mapping"])
-        if not o["label_fn"]:
-            mods.append("value_only_" + str(o["value_only"]))
-    return step + ("_with_" + "_and_".join(mods) if mods else "")
+    if step == "select_by_key_hit":
+        t = next(t for t in tags if t[0] == o["select_by_key"])
+        return step + ":" + cm.label_from_tag(t, **tmod)[1]
+    if step == "index":
+        t = tags[o["index"] % len(tags)]
+        return step + ":" + cm.label_from_tag(t, **tmod)[1]
+    if step == "join":
+        return step + ":" + "+".join(sorted({cm.label_from_tag(t, **tmod)[1] for t in tags}))
+    return step
 
 
 def run_label(case):
@@ -648,7 +650,7 @@ def run_label(case):
     real, mod = label_kwargs(o)
     r = call(cr.label_from_tags, rtags, **real)
     acceptable, step = cm.label_from_tags(atags, **mod)
-    cell = label_cell(o, step, atags)
+    cell = label_cell(o, step, atags, mod["tag_kwargs"])
     out.expect("label_equals_model", r[0] == "ok" and r[1] in acceptable, list(r), ["ok", acceptable],
                {"fn": "label_from_tags", "cell": cell}, {"options": o})
     rec = mkrec(8000)
